@@ -790,3 +790,83 @@ Theorem C01_window_example :
   /\ (wdumps s3, wfreqs s3, SelectX.x_spw s3) = ([1], [60; 56], 1).
 Proof. exact window_example. Qed.
 Print Assumptions C01_window_example.
+
+(* ------------------------------------------------------------------------------------------------------------------ *)
+(* Round 5: the time axis H5DataV3.__init__ builds from the file -- resynthesis from the ADC sample counter, wrap     *)
+(* handling, error branches (Model/DataSetResyn.v, Proofs/DataSetResynP.v).  [open_v3 f o] is the model of the block  *)
+(* h5datav3.py:222-323 (every expression and comparison operator re-translated: item_c01_v3_resynth); f = what the    *)
+(* file says, o = time_scale= / time_origin= / time_offset= of the open() call.                                       *)
+From KV Require Import Model.DataSetResyn Proofs.DataSetResynP.
+From Coq Require Import Qround.
+Open Scope Z_scope.
+
+(* tie: the comparison operators found in the source are `sensor_duration > data_duration`, `sensor_start_time -
+   time_origin > adc_wrap_period`, `time_deltas < -adc_wrap_period / 2` (an edit changes Generated.gen_v3_resyn_cmps) *)
+Theorem C01_v3_resynthesis_source : c_pick = 3 /\ c_loop = 3 /\ c_wraps = 1 /\ gen_v3_adc_bits = 48.
+Proof. split; [|split; [|split]]; try apply cmps_translated; reflexivity. Qed.
+Print Assumptions C01_v3_resynthesis_source.
+
+(* EVERY file and open() call with a positive effective time scale that opens: the timestamps of the data set are,
+   dump by dump, the DOCUMENTED times: stored timestamp -> 48-bit sample counter scale * (t - sync); one more wrap
+   whenever the counter falls by more than 2^47 from one dump to the next; (counter + 2^48 * wraps) / time_scale +
+   sync', + half a CBF dump unless centroid, + time_offset; the duplicate final dump dropped.  Nothing else changes. *)
+Theorem C01_v3_timestamps_documented : forall f o ts og,
+  (0 < eff_scale f o)%Q -> open_v3 f o = ROk ts og ->
+  og = final_origin f o /\ Forall2 Qeq ts (map (spec_mid f o) (drop_dup (spec_v3_times f o og))).
+Proof. exact open_v3_documented. Qed.
+Print Assumptions C01_v3_timestamps_documented.
+
+(* the sync time finally used (the model's closed form IS the result of the while loop): origin0 + k * wrap with the
+   smallest k >= 0 such that the sensor record starts at most one wrap period later; for every smaller j the loop
+   condition still held *)
+Theorem C01_v3_sync_time_documented : forall f o,
+  (0 < wrap_period f o)%Q -> spec_origin_ok (sensor_start f) (origin0 f o) (wrap_period f o) (final_origin f o).
+Proof. exact final_origin_documented. Qed.
+Print Assumptions C01_v3_sync_time_documented.
+
+Theorem C01_v3_sync_loop : forall ss origin wrap, (0 < wrap)%Q ->
+  let k := origin_steps ss origin wrap in
+  0 <= k /\ origin_continue ss (origin + inject_Z k * wrap) wrap = false /\
+  forall j, 0 <= j < k -> origin_continue ss (origin + inject_Z j * wrap) wrap = true.
+Proof. exact origin_steps_loop. Qed.
+Print Assumptions C01_v3_sync_loop.
+
+(* without overrides, with a recent enough sync time and no fall of the counter by more than 2^47: the resynthesis is
+   the identity -- timestamps = stored timestamps (+ half a CBF dump unless centroid, + time_offset), which is the
+   time axis [conv_t] of the data-set model of C01_elements / C01_labels for v3 *)
+Theorem C01_v3_resynthesis_identity : forall f o ts og,
+  ro_scale o = None -> ro_origin o = None -> (0 < rf_scale f)%Q ->
+  origin_steps (sensor_start f) (rf_sync f) (wrap_period f o) = 0 ->
+  existsb (fun d => TimeFreq.Qltb d (- two47)) (diffs (map (counter f) (rf_ts f))) = false ->
+  open_v3 f o = ROk ts og ->
+  (og == rf_sync f)%Q /\ Forall2 Qeq ts (map (spec_mid f o) (drop_dup (rf_ts f))).
+Proof. exact open_v3_identity. Qed.
+Print Assumptions C01_v3_resynthesis_identity.
+
+(* which files open: every file with a known timestamp reference, at least one dump and as many timestamps as data
+   rows opens (none is refused); and a refusal has exactly its documented cause *)
+Theorem C01_v3_opens : forall f o,
+  rf_ref f <> Some false -> (rf_ref f = None -> rf_cbf_dump f <> None) -> rf_ts f <> [] ->
+  Z.of_nat (List.length (rf_ts f)) = rf_rows f -> exists ts, open_v3 f o = ROk ts (final_origin f o).
+Proof. exact open_v3_opens. Qed.
+Print Assumptions C01_v3_opens.
+
+Theorem C01_v3_refusals : forall f o c, open_v3 f o = RErr c ->
+  (c = 1 /\ rf_ref f = Some false) \/ (c = 2 /\ rf_ref f = None /\ rf_cbf_dump f = None) \/
+  (c = 4 /\ rf_ts f = []) \/ (c = 3 /\ Z.of_nat (List.length (rf_ts f)) <> rf_rows f).
+Proof. exact open_v3_error_cause. Qed.
+Print Assumptions C01_v3_refusals.
+
+(* the number of dumps never changes except for the duplicate final dump *)
+Theorem C01_v3_unwrap_keeps_length : forall w l, List.length (unwrap w l) = List.length l.
+Proof. exact unwrap_len. Qed.
+Print Assumptions C01_v3_unwrap_keeps_length.
+
+(* non-vacuity: a counter that wraps every 8 s inside the observation; sync time moved forward by 6 wrap periods on
+   the evidence of a 50 s sensor record; time_scale= halved; time_origin=; the three refusals; centroid + duplicate *)
+Theorem C01_v3_resynthesis_examples :
+  ok_eqb (open_v3 (ex_file []) (ex_open None None)) [101 + (1#4); 103 + (1#4); 105 + (1#4); 107 + (1#4); 109 + (1#4)]%Q 100 = true
+  /\ ok_eqb (open_v3 (ex_file [(120, 121); (150, 200)]%Q) (ex_open None None))
+            [149 + (1#4); 151 + (1#4); 153 + (1#4); 155 + (1#4); 157 + (1#4)]%Q 148 = true.
+Proof. split; apply resyn_examples. Qed.
+Print Assumptions C01_v3_resynthesis_examples.
